@@ -13,8 +13,9 @@ the cell-level functions of `Model/HydroUpdate.lean`.
 `hydroStep` runs the phases in the order `execute_task` runs them for one subgrid (C07 shows that
 the task graph enforces this order between neighbouring subgrids):
 gradient sweeps → slope limiter → half-step prediction → flux sweeps → conserved update →
-primitive update.  Slope limiter and prediction are *uninterpreted* per-cell maps that can only
-write the gradients resp. the primitives (`apply_slope_limiter`, `predict_primitive_variables`).
+primitive update.  Slope limiter and prediction are parameters of `hydroStep` (per-cell maps that can only
+write the gradients resp. the primitives); `hydroStepCode` plugs in the models of
+`apply_slope_limiter` and `predict_primitive_variables` (`Model/HydroUpdate.lean`).
 
 `layoutOps L c` is the list of calls of all sweeps of all subgrids of a layout; `gridOps G` the
 calls of the plain sequential sweep over the undivided grid.  Core Lean only.
@@ -112,6 +113,19 @@ def hydroStep (flux : FluxFn α) (pr : Params α) (limiter : HV α → Grad α)
   let s := hydroStepFlux flux pr limiter predict gradOps fluxOps s
   let s := mapCells (fun h => updateConserved pr.dmax h pr.dt) s
   mapCells (fun h => { h with prim := setPrimitive pr.g pr.vmax pr.ovf pr.invVol h.cons }) s
+
+/-- the slope limiter task of the code: `apply_slope_limiter` with the cell sizes `_cell_size` -/
+def codeLimiter (pr : Params α) (h : HV α) : Grad α :=
+  applySlopeLimiter pr.dmax h ⟨pr.dx .x, pr.dx .y, pr.dx .z⟩
+
+/-- the prediction task of the code: `predict_primitive_variables(hydro, 0.5 * timestep)` -/
+def codePredict (pr : Params α) (h : HV α) : Q α :=
+  predictPrimitive pr.g pr.ovf h.prim h.grad h.acc (0.5 * pr.dt)
+
+/-- one hydro step with the slope limiter and the prediction of the code -/
+def hydroStepCode (flux : FluxFn α) (pr : Params α) (gradOps fluxOps : List Op)
+    (s : Grid (HV α)) : Grid (HV α) :=
+  hydroStep flux pr (codeLimiter pr) (codePredict pr) gradOps fluxOps s
 
 end
 
